@@ -793,7 +793,7 @@ def check_docs(ctx: Ctx, res: Result, M):
         list(range(0x00, 0xA0)) + [0xD7FF, 0xD800, 0xDBFF, 0xDC00, 0xDFFF, 0xE000] + rng.sample(range(0xD801, 0xDFFF), 40) +
         [0x2028, 0x2029, 0xFEFF, 0xFFFE, 0xFFFF, 0x10000, 0x10FFFF])
     mds += class_mds(M, pts)
-    mds += [gen_md(rng, M) for _ in range(ctx.n(40, 500))]
+    mds += [gen_md(rng, M) for _ in range(ctx.n(70, 1000))]
     print_cases, read_cases, read_docs = [], [], []
     for md in mds:
         doc = oracle_roundtrip(md, M, res)
@@ -821,7 +821,7 @@ def check_docs(ctx: Ctx, res: Result, M):
     add_mism(res, "print:SnapshotMetadata.to_yaml~model", errs, bad, lambda i: {"doc": print_cases[i][1][:300]})
     # malformed stream
     base = [d for d in read_docs if len(d) < 900]
-    for _ in range(ctx.n(250, 2500)):
+    for _ in range(ctx.n(400, 5000)):
         d = rng.choice(base)
         m = mutate(rng, d)
         if rng.random() < 0.15:
@@ -865,7 +865,7 @@ def check_prefixes(ctx: Ctx, res: Result, M, mds):
     rng.shuffle(docs)
     fixed = M.SnapshotMetadata("0.0.1", 1, {"0/a\ud83d": M.DictEntry(keys=["x\U0001f600", -5, True]),
                                             "0/a/x": M.PrimitiveEntry.from_object(float_of_bits(0x7FF0000000000001))})
-    chosen = [(fixed, fixed.to_yaml())] + docs[:ctx.n(2, 40)]
+    chosen = [(fixed, fixed.to_yaml())] + docs[:ctx.n(3, 100)]
     cases = []
     for md, doc in chosen:
         oracle_prefixes(md, M, res)
@@ -899,7 +899,7 @@ def gen_json(rng, depth=0):
 def check_parse(ctx: Ctx, res: Result):
     rng = ctx.rng
     texts = []
-    for _ in range(ctx.n(80, 800)):
+    for _ in range(ctx.n(120, 1500)):
         v = gen_json(rng)
         t = json.dumps(v, indent=rng.choice([2, 2, None, 0, 1]), separators=rng.choice([None, (",", ":"), (" , ", " : ")]))
         texts.append(t)
